@@ -77,7 +77,7 @@
                 assert(ins_rel(Some(**node), texts(IteratorSpec::remaining(&all_segments)), **final(node), e0, mname)
                     ==> ins_rel(Some(node0), before, fin_old, e0, mname));
             }
-//@ after "to_uppercase_();" 0
+//@ before "let existing_handlers" 0
         proof { ax_string_ext(methodname, mname); }
         let ghost leaf0 = **node;
 //@ loop_iter 1 it
